@@ -97,6 +97,8 @@ type Exec struct {
 	steps, blocks int
 	recovered     int
 	cur           *Thread
+	roThread      *Thread // read-only spin detection: thread and instructions since the world last changed
+	roSpin        int
 	threads       []*Thread
 	notes         []string
 	reached       map[string]bool
